@@ -162,6 +162,36 @@ CLAIMS = {
         design="§7 C04",
         note=TB + "Interface-level model (emit∘parse as one function of the IR); ast.unparse/ast.parse run for real. word_wrap is exercised only where everything fits the line (else C18).",
     ),
+    "C05": dict(
+        technique="Lean 4 theorem by induction over chains of any length on the interface-level normal forms + differential run of real chains through text against the composed model",
+        text=(
+            "Kernel-checked: Kinds.chain_pres — for EVERY list of kinds (any length, any order, repetitions allowed) the "
+            "composed normal form keeps parameter names, order, prose, types and explicit defaults, position by position "
+            "(nothing invented, nothing swapped between parameters; a return entry is kept or lost, never invented); "
+            "chain_ok_pres transfers this to the executable chain with its per-step domain checks; chain_names. The model "
+            "(Kinds.chain) is tied to the code by running real chains of 2-3 kinds — all 42 ordered pairs and 210 triples in "
+            "the thorough tier — through the emitted text at every hop and comparing with the model whenever every "
+            "intermediate description stays inside the regular domain of the next kind. The predicate mirrors PresIR on the "
+            "real code for every case. Where conversions compose badly today (function writes None, argparse then reads "
+            "Optional[...]; '' and 0 defaults leave a dangling 'Defaults to') the case is a recorded finding."
+        ),
+        design="§7 C05",
+        note=TB + "Unbounded chain length is proved for the model; on the code chains of length 2 and 3 are run. Interface-level model of each kind (see C02-C04).",
+    ),
+    "C08": dict(
+        technique="Lean 4 idempotence theorems on the interface-level normal forms + differential run of single and double conversions; byte comparison of second and third emission",
+        text=(
+            "Kernel-checked: norm_cls_idem, norm_func_idem (and the per-entry normClassParam_idem / normFuncParam_idem): "
+            "a second normalising pass changes nothing, so the description after one round trip is a fixed point and the "
+            "third emission is the emission of the same description as the second; chain_eq_fold relates the executable "
+            "chain to the fold. Tied to the code by comparing the real single and double conversion with Kinds.chain [k] and "
+            "[k, k] for every in-domain case; the predicate compares the bytes of the second and third emission on the real "
+            "code for all seven kinds and the option combinations. argparse/docstring idempotence is established by the "
+            "differential run only (no theorem yet)."
+        ),
+        design="§7 C08",
+        note=TB + "Emit determinism (same description, same options -> same bytes) is C12's; ast.unparse runs for real.",
+    ),
 }
 
 PENDING_REASON = "check not built yet in this round (work in progress; see DESIGN.md §10 build order) — not a claim that the technique cannot apply"
